@@ -425,6 +425,114 @@ def run_coupler(case):
 
 
 # ------------------------------------------------------------------------------------------------------
+# stage 4 (engine E5): TLA+ model of the clock protocol checked by TLC; EVERY behaviour of the model (all paths of the
+# dumped, acyclic state graph) is replayed against the real solver with dyadic tick sizes so that float arithmetic is exact
+
+TLA_CFGS = ['8_1_3', '8_2_4', '8_3_8', '16_4_8', '4_1_4', '8_5_3']
+PATH_CAP = 400000
+
+
+def _parse_dot(path):
+    import re
+    nodes, edges = {}, {}
+    node_re = re.compile(r'^(-?\d+) \[label="(.*?)"[,\]]')
+    edge_re = re.compile(r'^(-?\d+) -> (-?\d+) \[label="Step\((\d+)\)"')
+    with open(path) as f:
+        for line in f:
+            m = edge_re.match(line)
+            if m:
+                edges.setdefault(m.group(1), []).append((m.group(2), int(m.group(3))))
+                continue
+            m = node_re.match(line)
+            if m:
+                d = {}
+                for part in m.group(2).split('\\n'):
+                    part = part.replace('/\\\\', '').strip()
+                    if '=' in part:
+                        k, v = part.split('=', 1)
+                        v = v.strip()
+                        d[k.strip()] = (v == 'TRUE') if v in ('TRUE', 'FALSE') else int(v)
+                nodes[m.group(1)] = d
+    return nodes, edges
+
+
+def run_tla(case):
+    import os, shutil, subprocess, tempfile
+    name = case['cfg']
+    TF, DMIN, DMAX = [int(v) for v in name.split('_')]
+    here = os.path.join(os.path.dirname(os.path.dirname(os.path.abspath(__file__))), 'models')
+    tmp = tempfile.mkdtemp(prefix='tlc_c05_')
+    try:
+        dot = os.path.join(tmp, 'g.dot')
+        cmd = ['tlc', '-workers', '1', '-noGenerateSpecTE', '-deadlock', '-metadir', os.path.join(tmp, 'meta'),
+               '-dump', 'dot,actionlabels', dot, '-config', 'SolverClock_%s.cfg' % name, 'SolverClock.tla']
+        p = subprocess.run(cmd, cwd=here, capture_output=True, text=True, timeout=600)
+        out = p.stdout + p.stderr
+        viol = []
+        if 'No error has been found' not in out:
+            # the model itself violates one of its invariants: a modelling error, reported as such
+            raise RuntimeError('TLC did not verify the model %s:\n%s' % (name, out[-2000:]))
+        nodes, edges = _parse_dot(dot)
+    finally:
+        shutil.rmtree(tmp, ignore_errors=True)
+    roots = [k for k, d in nodes.items() if d['n'] == 0]
+    tick = 2.0 ** -6
+    INF = TF + DMAX + 1
+    npaths = nsteps = 0
+    outcomes = set()
+    capped = False
+    for t0 in (0.0, 0.5):
+        for it in ('euler', 'rk4'):
+            for root in roots:
+                stop_at = nodes[root]['stopAt'] or None
+                # depth-first enumeration of every path root -> terminal
+                stack = [(root, [])]
+                while stack:
+                    node, props = stack.pop()
+                    succ = edges.get(node, [])
+                    if succ:
+                        for dst, pr in succ:
+                            stack.append((dst, props + [(pr, nodes[dst]['t'])]))
+                        continue
+                    npaths += 1
+                    if npaths > PATH_CAP:
+                        capped = True
+                        stack = []
+                        break
+                    # replay this behaviour on the implementation
+                    vals = []
+                    for j, (pr, _) in enumerate(props):
+                        if pr == 0:
+                            vals.append([0.0, -1.0, float('nan')][(npaths + j) % 3])
+                        elif pr == INF:
+                            vals.append(float('inf'))
+                        else:
+                            vals.append(pr * tick)
+                    m = ScriptModel(t0, [], stop_at, TF + 3)
+                    m._minf, m._maxf = DMIN / TF, DMAX / TF
+                    m.script_values = vals
+                    m.getDt = (lambda mm: (lambda dXdt: (mm.props.append(mm.script_values[mm.k] if mm.k < len(mm.script_values) else float('inf'))
+                                                        or mm.props[-1])))(m)
+                    try:
+                        m.solve(TF * tick, solverType=_iterator(it, []), minDtFrac=DMIN / TF, maxDtFrac=DMAX / TF)
+                        got = m.times
+                    except Exception as e:
+                        got = ['%s: %s' % (type(e).__name__, e)]
+                    want = [t0 + tt * tick for (_, tt) in props]
+                    nsteps += len(want)
+                    if got != want:
+                        sig = 'tla/trace-mismatch/cfg=%s/it=%s' % (name, it)
+                        if len(viol) < 20:
+                            viol.append({'sig': sig, 'msg': 'model behaviour (proposals %r, stop at %r, t0=%r) gives ticks %r = times %r, '
+                                         'DESolver gives %r' % ([p_ for p_, _ in props], stop_at, t0, [tt for _, tt in props], want, got)})
+                    outcomes.add('steps=%d%s' % (len(want), ',stopped' if (stop_at and len(want) == stop_at and props[-1][1] < TF) else ''))
+    return {'viol': viol, 'states': len(nodes), 'transitions': sum(len(v) for v in edges.values()), 'traces': npaths,
+            'evaluations': npaths, 'nontrivial_count': len(outcomes), 'outcome': 'n_outcomes=%d' % len(outcomes),
+            'info': {'tlc_states': len(nodes), 'tlc_edges': sum(len(v) for v in edges.values()), 'paths_replayed': npaths,
+                     'steps_compared': nsteps, 'capped': capped}}
+
+
+# ------------------------------------------------------------------------------------------------------
 
 def run(ctx):
     quick = ctx.quick
@@ -479,3 +587,9 @@ def run(ctx):
                 for drv in range(len(g)):
                     ccases.append({'layouts': list(g), 'it': it, 'script': sc, 'fracs': [0.05, 0.5], 'driver': drv})
     ctx.product_run('coupler', 'checks.c05:run_coupler', ccases)
+
+    # E5: TLC-checked model, all behaviours replayed on the implementation
+    res = ctx.product_run('tla', 'checks.c05:run_tla', [{'cfg': c} for c in (TLA_CFGS[:3] if quick else TLA_CFGS)], chunksize=1)
+    for r in res:
+        if r.get('info', {}).get('capped'):
+            ctx.cap('tla: path cap %d hit' % PATH_CAP)
